@@ -25,6 +25,8 @@ KERNELS = {
     "C07": (["Props.C07"], ["TtpErrors.countErrors_noOOB"]),
     "C08": (["Props.C08"], ["TtpLength.planLength?_noOOB"]),
     "C09": (["Props.C09"], ["Qap.qapEval_noOOB"]),
+    "C10": (["Props.C10"], ["Ode.jCompute_fills_exactly"]),
+    "C14": (["Props.C14"], ["IblSpec.decode1_eq_nextFit", "IblSpec.decode2_eq_firstFit"]),
     "C15": (["Props.C15"], ["GameEnc.mapGames_noOOB"]),
     "C16": (["Props.C16", "Props.C16Ann"], ["C16.controller_indices_in_range", "C16.system_indices_in_range",
                                             "AnnGen.annGen_indices_in_range"]),
